@@ -130,7 +130,27 @@ static void init(void)
   in_shim--;
 }
 
-__attribute__((constructor)) static void ctor(void) { init(); }
+/* sanitised builds (VERIF_SANITIZE): AddressSanitizer reports are also appended to $VSHIM_SANLOG.<pid> so that a check can collect them
+ * wherever the program's stderr goes */
+static void san_report(const char *report)
+{
+  const char *base = getenv("VSHIM_SANLOG"); char p[700]; int fd; REAL(open); REAL(write); REAL(close);
+  if (!base) return;
+  snprintf(p, sizeof p, "%s.%d", base, (int)syscall(SYS_getpid));
+  fd = real_open(p, O_WRONLY | O_CREAT | O_APPEND, 0644);
+  if (fd < 0) return;
+  if (real_write(fd, report, strlen(report)) < 0) {}
+  real_close(fd);
+}
+
+__attribute__((constructor)) static void ctor(void)
+{
+  init();
+  if (getenv("VSHIM_SANLOG")) {
+    void (*set_cb)(void (*)(const char *)) = (void (*)(void (*)(const char *)))dlsym(RTLD_DEFAULT, "__asan_set_error_report_callback");
+    if (set_cb) set_cb(san_report);
+  }
+}
 
 /* ------------------------------------------------------------------ trace */
 
